@@ -48,7 +48,15 @@ func Register(p *Prop) { registry[p.ID] = p }
 // Rng is splitmix64; the whole run derives from one seed.
 type Rng struct{ s uint64 }
 
-func NewRng(seed uint64) *Rng { return &Rng{s: seed*0x9E3779B97F4A7C15 + 0x1234567} }
+// NewRng mixes the seed through two rounds of the output function first, so that consecutive
+// seeds give unrelated streams (a plain affine start would make seed k+1 a one-draw shift of seed k).
+func NewRng(seed uint64) *Rng {
+	r := &Rng{s: seed ^ 0x6A09E667F3BCC908}
+	a := r.U64()
+	b := r.U64()
+	r.s = a ^ (b << 1) ^ (seed * 0xD1342543DE82EF95)
+	return r
+}
 func (r *Rng) U64() uint64 {
 	r.s += 0x9E3779B97F4A7C15
 	z := r.s
